@@ -82,29 +82,43 @@ type tctx struct {
 	fn     *ssa.Function
 	c      int64     // constant index written (unrolled / calls form)
 	iv     ssa.Value // loop counter value (loop form); nil otherwise
+	ivK    int64     // loop form: the index written is iv + ivK
 	offs   []int64   // every relative index printed
 	opaque bool      // an index could not be related to the written index
 	budget int
 	allocs map[*ssa.Alloc]int
 }
 
+// ctrPlus decomposes an index into (loop counter value) + k.
+func ctrPlus(v ssa.Value) (ctr ssa.Value, k int64, ok bool) {
+	v = stripConv(v)
+	if _, _, isC := loopCounter(v); isC {
+		return v, 0, true
+	}
+	if b, isB := v.(*ssa.BinOp); isB && (b.Op == token.ADD || b.Op == token.SUB) {
+		if c, isK := constInt(b.Y); isK {
+			if _, _, isC := loopCounter(b.X); isC {
+				if b.Op == token.SUB {
+					c = -c
+				}
+				return stripConv(b.X), c, true
+			}
+		}
+		if c, isK := constInt(b.X); isK && b.Op == token.ADD {
+			if _, _, isC := loopCounter(b.Y); isC {
+				return stripConv(b.Y), c, true
+			}
+		}
+	}
+	return nil, 0, false
+}
+
 func (t *tctx) index(v ssa.Value) string {
 	v = stripConv(v)
 	if t.iv != nil {
-		if v == t.iv {
-			t.offs = append(t.offs, 0)
-			return "+0"
-		}
-		if b, ok := v.(*ssa.BinOp); ok && (b.Op == token.ADD || b.Op == token.SUB) {
-			if stripConv(b.X) == t.iv {
-				if k, ok := constInt(b.Y); ok {
-					if b.Op == token.SUB {
-						k = -k
-					}
-					t.offs = append(t.offs, k)
-					return sprintf("%+d", k)
-				}
-			}
+		if ctr, k, ok := ctrPlus(v); ok && ctr == t.iv {
+			t.offs = append(t.offs, k-t.ivK)
+			return sprintf("%+d", k-t.ivK)
 		}
 		if k, ok := constInt(v); ok {
 			return sprintf("@%d", k) // a fixed lane / fixed element
@@ -118,6 +132,16 @@ func (t *tctx) index(v ssa.Value) string {
 	}
 	t.opaque = true
 	return "?"
+}
+
+// isLimbArray: a pointer to an array of machine integers.
+func isLimbArray(t types.Type) bool {
+	a, ok := isArrayPtr(t)
+	if !ok {
+		return false
+	}
+	b, ok := a.Elem().Underlying().(*types.Basic)
+	return ok && b.Info()&types.IsInteger != 0
 }
 
 func isArrayPtr(t types.Type) (*types.Array, bool) {
@@ -201,7 +225,21 @@ func (t *tctx) val(v ssa.Value) string {
 		}
 		return v.Op.String() + "(" + t.val(v.X) + ")"
 	case *ssa.BinOp:
-		return v.Op.String() + "(" + t.val(v.X) + "," + t.val(v.Y) + ")"
+		a, b := t.val(v.X), t.val(v.Y)
+		switch v.Op {
+		case token.ADD, token.MUL, token.AND, token.OR, token.XOR:
+			if b < a {
+				a, b = b, a // operand order of a commutative operator is irrelevant
+			}
+		}
+		return v.Op.String() + "(" + a + "," + b + ")"
+	case *ssa.Index:
+		// an element of an array VALUE (`for i, v := range arr` reads a copy of
+		// arr taken before the loop): the same limb as a load through &arr[i]
+		if ld, ok := v.X.(*ssa.UnOp); ok && ld.Op == token.MUL {
+			return "ld(" + t.addr(ld.X) + "[" + t.index(v.Index) + "])"
+		}
+		return "idx(" + t.val(v.X) + ")[" + t.index(v.Index) + "]"
 	case *ssa.Convert:
 		return "cv:" + v.Type().String() + "(" + t.val(v.X) + ")"
 	case *ssa.ChangeType:
@@ -246,23 +284,26 @@ func (t *tctx) arg(a ssa.Value) string {
 	return t.val(a)
 }
 
+// limbWrite is one write (or one loop of writes) into a limb array: the limbs
+// it writes and the template it writes them with.
 type limbWrite struct {
-	idx    int64
+	set    []int64
 	tmpl   string
 	offs   []int64
 	opaque bool
+	loop   bool
 	pos    token.Pos
 }
 
+// limbGroup collects every write into one array of a function, whatever the
+// spelling: unrolled stores, calls taking &X[c], counting loops, or a mixture
+// (first limb peeled, loop unrolled by two).
 type limbGroup struct {
 	fn     *ssa.Function
 	base   string
 	form   string
 	n      int64
-	writes map[int64]*limbWrite // unrolled / calls: last write per index
-	loop   *limbWrite
-	iv     *induction
-	delta  int64 // counter value minus phi value (range form)
+	writes []*limbWrite
 	pos    token.Pos
 }
 
@@ -273,29 +314,43 @@ func limbGroups(fn *ssa.Function) []*limbGroup {
 	get := func(key, form string, n int64, pos token.Pos) *limbGroup {
 		g := groups[key]
 		if g == nil {
-			g = &limbGroup{fn: fn, base: key, form: form, n: n, writes: map[int64]*limbWrite{}, pos: pos}
+			g = &limbGroup{fn: fn, base: key, form: form, n: n, pos: pos}
 			groups[key] = g
 			order = append(order, key)
 		}
+		if g.form != form {
+			g.form = "mixed"
+		}
 		return g
+	}
+	loopSet := func(ctr ssa.Value, k int64) []int64 {
+		iv, delta, ok := loopCounter(ctr)
+		if !ok {
+			return nil
+		}
+		vals := iv.values(64)
+		out := make([]int64, len(vals))
+		for i, v := range vals {
+			out[i] = v + delta + k
+		}
+		return out
 	}
 	for _, b := range fn.Blocks {
 		for _, in := range b.Instrs {
 			switch in := in.(type) {
 			case *ssa.Store:
-				// loop form: some index of the address chain is a loop counter
-				if ctr, arr := loopIndexOf(in.Addr); ctr != nil {
-					iv, delta, ok := loopCounter(ctr)
-					if !ok {
-						continue
+				// loop form: some index of the address chain is (loop counter + k)
+				if lvl, ctr, k, arr := loopIndexOf(in.Addr); lvl != nil {
+					t := &tctx{fn: fn, iv: ctr, ivK: k, budget: 4000}
+					key := t.addr(lvl.X)
+					if ssa.Value(lvl) != in.Addr {
+						// the counter indexes an outer array: keep the fixed inner part
+						key = strings.Replace(t.addr(in.Addr), "[+0]", "[*]", 1)
 					}
-					t := &tctx{fn: fn, iv: ctr, budget: 4000}
-					key := t.addr(in.Addr)
 					t.offs = nil
 					tm := t.val(in.Val)
-					g := get("loop:"+key+"@"+ctr.Name(), "loop", arr.Len(), in.Pos())
-					g.iv, g.delta = iv, delta
-					g.loop = &limbWrite{tmpl: tm, offs: t.offs, opaque: t.opaque, pos: in.Pos()}
+					g := get(key, "loop", arr.Len(), in.Pos())
+					g.writes = append(g.writes, &limbWrite{set: loopSet(ctr, k), tmpl: tm, offs: t.offs, opaque: t.opaque, loop: true, pos: in.Pos()})
 					continue
 				}
 				ia, ok := in.Addr.(*ssa.IndexAddr)
@@ -311,20 +366,27 @@ func limbGroups(fn *ssa.Function) []*limbGroup {
 					key := t.addr(ia.X)
 					t.offs = nil
 					tm := t.val(in.Val)
-					g := get("unrolled:"+key, "unrolled", arr.Len(), in.Pos())
-					g.writes[c] = &limbWrite{idx: c, tmpl: tm, offs: t.offs, opaque: t.opaque, pos: in.Pos()}
+					g := get(key, "unrolled", arr.Len(), in.Pos())
+					g.writes = append(g.writes, &limbWrite{set: []int64{c}, tmpl: tm, offs: t.offs, opaque: t.opaque, pos: in.Pos()})
 				}
 			case *ssa.Call:
 				callee := in.Call.StaticCallee()
 				if callee == nil {
 					continue
 				}
+				// f(.., &X[c], ..) or, in a counting loop, f(.., &X[i], ..)
 				var first *ssa.IndexAddr
+				var ctr ssa.Value
+				var k int64
 				for _, a := range in.Call.Args {
 					if ia, ok := a.(*ssa.IndexAddr); ok {
 						if _, ok := isArrayPtr(ia.X.Type()); ok {
 							if _, ok := constInt(ia.Index); ok {
 								first = ia
+								break
+							}
+							if c, kk, ok := ctrPlus(ia.Index); ok && isLimbArray(ia.X.Type()) {
+								first, ctr, k = ia, c, kk
 								break
 							}
 						}
@@ -334,11 +396,18 @@ func limbGroups(fn *ssa.Function) []*limbGroup {
 					continue
 				}
 				arr, _ := isArrayPtr(first.X.Type())
+				if ctr != nil {
+					t := &tctx{fn: fn, iv: ctr, ivK: k, budget: 4000}
+					tm := t.val(in)
+					g := get("calls:"+funcKey(callee), "loop", arr.Len(), in.Pos())
+					g.writes = append(g.writes, &limbWrite{set: loopSet(ctr, k), tmpl: tm, offs: t.offs, opaque: t.opaque, loop: true, pos: in.Pos()})
+					continue
+				}
 				c, _ := constInt(first.Index)
 				t := &tctx{fn: fn, c: c, budget: 4000}
 				tm := t.val(in)
 				g := get("calls:"+funcKey(callee), "calls", arr.Len(), in.Pos())
-				g.writes[c] = &limbWrite{idx: c, tmpl: tm, offs: t.offs, opaque: t.opaque, pos: in.Pos()}
+				g.writes = append(g.writes, &limbWrite{set: []int64{c}, tmpl: tm, offs: t.offs, opaque: t.opaque, pos: in.Pos()})
 			}
 		}
 	}
@@ -349,15 +418,16 @@ func limbGroups(fn *ssa.Function) []*limbGroup {
 	return out
 }
 
-// loopIndexOf finds, in the address chain of a store, an array index that is
-// a loop counter and returns it with the array it indexes.
-func loopIndexOf(addr ssa.Value) (ssa.Value, *types.Array) {
+// loopIndexOf finds, in the address chain of a store, an array index of the
+// form (loop counter + k) and returns that level, the counter, k and the array
+// it indexes.
+func loopIndexOf(addr ssa.Value) (*ssa.IndexAddr, ssa.Value, int64, *types.Array) {
 	for {
 		switch a := addr.(type) {
 		case *ssa.IndexAddr:
 			if arr, ok := isArrayPtr(a.X.Type()); ok {
-				if _, _, ok := loopCounter(a.Index); ok {
-					return stripConv(a.Index), arr
+				if ctr, k, ok := ctrPlus(a.Index); ok {
+					return a, ctr, k, arr
 				}
 			}
 			addr = a.X
@@ -366,7 +436,7 @@ func loopIndexOf(addr ssa.Value) (ssa.Value, *types.Array) {
 			addr = a.X
 			continue
 		}
-		return nil, nil
+		return nil, nil, 0, nil
 	}
 }
 
@@ -380,68 +450,99 @@ func allZero(offs []int64) bool {
 }
 
 // evaluate classifies a group: limbwise = it looks like an intended
-// limb-wise operation (complete, majority template reads limbs at offset 0
-// only); uniform = every limb uses that one template.
+// limb-wise operation (the writes with one template cover more than half of
+// the limbs and that template reads limbs at offset 0 only, or a counting loop
+// indexes limb arrays with its counter); uniform = EVERY limb is written with
+// that template.  Additional writes to single limbs (a carry folded into limb
+// 0 before or after the per-limb statement) do not make an operation
+// non-uniform; a limb that never receives the common template does.
 func (g *limbGroup) evaluate() (limbwise, uniform bool, tmpl, deviant string, pos token.Pos) {
-	if g.form == "loop" {
-		w := g.loop
-		if w == nil || g.iv == nil {
-			return false, false, "", "", g.pos
-		}
-		if len(w.offs) == 0 {
-			return false, false, w.tmpl, "", w.pos
-		}
-		// a loop that indexes limb arrays with its counter is a limb-wise loop
-		vals := g.iv.values(64)
-		for i := range vals {
-			vals[i] += g.delta
-		}
-		switch {
-		case w.opaque:
-			return true, false, w.tmpl, "an index depends on the loop counter in an unrecognised way", w.pos
-		case !allZero(w.offs):
-			return true, false, w.tmpl, "a limb is read at a non-zero offset from the limb written", w.pos
-		case !isRange(vals, 0, g.n-1):
-			return true, false, w.tmpl, sprintf("the loop visits %v, not every limb 0..%d exactly once", vals, g.n-1), w.pos
-		}
-		return true, true, w.tmpl, "", w.pos
-	}
-	if int64(len(g.writes)) != g.n {
+	if len(g.writes) == 0 {
 		return false, false, "", "", g.pos
 	}
-	count := map[string]int{}
-	for i := int64(0); i < g.n; i++ {
-		w := g.writes[i]
-		if w == nil {
-			return false, false, "", "", g.pos
-		}
-		count[w.tmpl]++
+	type class struct {
+		tmpl    string
+		covered map[int64]bool
+		first   *limbWrite
+		loop    bool
 	}
-	best, bestN := "", 0
-	for _, k := range sortedKeys(count) {
-		if count[k] > bestN {
-			best, bestN = k, count[k]
+	classes := map[string]*class{}
+	for _, w := range g.writes {
+		if w.loop && len(w.offs) == 0 && !w.opaque {
+			continue // a loop whose stored value does not read limb arrays (initialisation)
+		}
+		c := classes[w.tmpl]
+		if c == nil {
+			c = &class{tmpl: w.tmpl, covered: map[int64]bool{}, first: w}
+			classes[w.tmpl] = c
+		}
+		c.loop = c.loop || w.loop
+		for _, i := range w.set {
+			c.covered[i] = true
+		}
+		if w.loop && w.set == nil {
+			c.covered[-1] = true // loop bounds not recognised
 		}
 	}
-	if int64(2*bestN) <= g.n {
+	var best *class
+	for _, k := range sortedKeys(classes) {
+		c := classes[k]
+		if best == nil || len(c.covered) > len(best.covered) {
+			best = c
+		}
+	}
+	if best == nil {
 		return false, false, "", "", g.pos
 	}
-	var maj *limbWrite
-	for i := int64(0); i < g.n; i++ {
-		if g.writes[i].tmpl == best {
-			maj = g.writes[i]
-			break
+	// every counting loop over limb arrays must read the limb it writes
+	for _, k := range sortedKeys(classes) {
+		if c := classes[k]; c.loop && c != best {
+			switch {
+			case c.first.opaque:
+				return true, false, c.tmpl, "an index depends on the loop counter in an unrecognised way", c.first.pos
+			case !allZero(c.first.offs):
+				return true, false, c.tmpl, "a limb is read at a non-zero offset from the limb written", c.first.pos
+			}
 		}
 	}
-	if maj.opaque || !allZero(maj.offs) {
-		return false, false, best, "", g.pos
-	}
-	for i := int64(0); i < g.n; i++ {
-		if w := g.writes[i]; w.tmpl != best {
-			return true, false, best, sprintf("limb %d is computed by %s, the other limbs by %s", i, w.tmpl, best), w.pos
+	maj := best.first
+	if !best.loop {
+		// unrolled code is limb-wise only if a clear majority of limbs share the template
+		if int64(2*len(best.covered)) <= g.n || maj.opaque || !allZero(maj.offs) {
+			return false, false, best.tmpl, "", g.pos
 		}
 	}
-	return true, true, best, "", maj.pos
+	switch {
+	case best.loop && maj.opaque:
+		return true, false, best.tmpl, "an index depends on the loop counter in an unrecognised way", maj.pos
+	case best.loop && !allZero(maj.offs):
+		return true, false, best.tmpl, "a limb is read at a non-zero offset from the limb written", maj.pos
+	}
+	var visited []int64
+	for i := range best.covered {
+		visited = append(visited, i)
+	}
+	sort.Slice(visited, func(a, b int) bool { return visited[a] < visited[b] })
+	for _, i := range visited {
+		if i < 0 || i >= g.n {
+			return true, false, best.tmpl, sprintf("the writes visit %v, not the limbs 0..%d", visited, g.n-1), maj.pos
+		}
+	}
+	for i := int64(0); i < g.n; i++ {
+		if best.covered[i] {
+			continue
+		}
+		// what limb i gets instead
+		for _, w := range g.writes {
+			for _, j := range w.set {
+				if j == i {
+					return true, false, best.tmpl, sprintf("limb %d is computed by %s, the other limbs by %s", i, w.tmpl, best.tmpl), w.pos
+				}
+			}
+		}
+		return true, false, best.tmpl, sprintf("the writes visit %v, not every limb 0..%d", visited, g.n-1), maj.pos
+	}
+	return true, true, best.tmpl, "", maj.pos
 }
 
 // backendOf returns "u64" or "u32" from the limb count of field.Element.
@@ -493,6 +594,11 @@ func CheckUniform(run *report.Run, p *load.Program, ruleID string) []UniformGrou
 	}
 	var out []UniformGroup
 	found := map[string]bool{}
+	// static calls between the functions looked at (a listed operation may keep
+	// its limb code in an unexported helper, or be defined by another listed
+	// operation: ConditionalAssign(o, c) = ConditionalSelect(fe, o, c))
+	calls := map[string]map[string]bool{}
+	var fns []*ssa.Function
 	for _, fn := range p.ModuleFuncs() {
 		if fn.Pkg == nil || len(fn.Blocks) == 0 {
 			continue
@@ -501,6 +607,21 @@ func CheckUniform(run *report.Run, p *load.Program, ruleID string) []UniformGrou
 		if rel != fieldRel && rel != curveRel {
 			continue
 		}
+		fns = append(fns, fn)
+		name := funcKey(topLevel(fn))
+		for _, b := range fn.Blocks {
+			for _, in := range b.Instrs {
+				if c := staticCallee(in); c != nil && c.Pkg == fn.Pkg {
+					if calls[name] == nil {
+						calls[name] = map[string]bool{}
+					}
+					calls[name][funcKey(topLevel(c))] = true
+				}
+			}
+		}
+	}
+	for _, fn := range fns {
+		rel := load.Rel(fn.Pkg.Pkg)
 		name := funcKey(topLevel(fn))
 		for _, g := range limbGroups(fn) {
 			lw, uni, tmpl, dev, pos := g.evaluate()
@@ -515,19 +636,38 @@ func CheckUniform(run *report.Run, p *load.Program, ruleID string) []UniformGrou
 			ug := UniformGroup{Func: name, Base: g.base, N: g.n, Form: g.form, Template: tmpl, Uniform: uni, pos: pos, deviant: dev}
 			out = append(out, ug)
 			construct := name + " " + g.base
-			if _, listed := expected[name]; !listed {
-				ru.Failf(p.Pos(pos), construct, "limb-wise code found in a function that is not in the frozen list of limb-wise operations of back end %s; add it with a reason", be)
-				continue
-			}
 			if !uni {
+				if _, listed := expected[name]; !listed {
+					dev += sprintf(" (in %s, which is not in the frozen list of limb-wise operations of back end %s)", shortKey(name), be)
+				}
 				ru.Failf(p.Pos(pos), construct, "limb-wise operation is not uniform: %s", dev)
 				continue
 			}
+			// a uniform group is fine wherever it is found (a helper of a listed
+			// operation, a per-limb copy loop): uniformity is the condition
 			ru.OK(construct)
 		}
 	}
+	// a listed operation is recognised when it contains a limb-wise group, or
+	// statically calls (at most two levels deep) a function of its package that does
+	recognised := func(name string) bool {
+		if found[name] {
+			return true
+		}
+		for c1 := range calls[name] {
+			if found[c1] {
+				return true
+			}
+			for c2 := range calls[c1] {
+				if found[c2] {
+					return true
+				}
+			}
+		}
+		return false
+	}
 	for _, name := range sortedKeys(expected) {
-		if !found[name] {
+		if !recognised(name) {
 			ru.Failf("-", name, "frozen limb-wise operation (%s) is no longer recognised as limb-wise in back end %s (function missing, or no complete group of per-limb writes)", expected[name], be)
 		}
 	}
